@@ -75,6 +75,8 @@ def build_events():
         ('m2:Sjson metadata lists vs objects', sj, d1(sj, 'nbmeta:x-append'), sj_obj, ['mergetool', None, None, True]),
         ('m3:Ssim line conflicts use-local', S['Ssim'], d1(S['Ssim'], 'src@0:repl1:a'), d1(S['Ssim'], 'src@0:tweak1'), ['use-local', None, None, True]),
         ('m4:S44 similar inserts', S['S44'], d1(S['S44'], 'cell-insert:C1@3'), d1(S['S44'], 'cell-insert:C2@3'), ['inline', None, None, True]),
+        ('m5:S44 dissimilar inserts (marker cells, no ids)', S['S44'], d1(S['S44'], 'cell-insert:C3@3'), d1(S['S44'], 'cell-insert:M3@3'), ['inline', None, None, True]),
+        ('m6:S45 dissimilar inserts (marker cells, ids)', S['S45'], d1(S['S45'], 'cell-insert:C3@3'), d1(S['S45'], 'cell-insert:M3@3'), ['inline', None, None, True]),
     ]
     targets = [
         ('t0:all on', dict(sources=True, outputs=True, attachments=True, metadata=True, identifier=True, details=True)),
@@ -168,7 +170,10 @@ def execute(ev):
         try:
             with time_limit(30):
                 m, decs = merge_notebooks(U.to_node(ev['base']), U.to_node(ev['local']), U.to_node(ev['remote']), args_for(tuple(ev['cfg'])))
-            return 'OK:' + hashlib.sha1(canon([m, decs]).encode('utf8')).hexdigest()[:16]
+            # ids of conflict-marker cells come from nbformat's random generator (a counter in this harness): not an observation
+            import re
+            text = re.sub(r'verif-id-\d+', '<generated-id>', canon([m, decs]))
+            return 'OK:' + hashlib.sha1(text.encode('utf8')).hexdigest()[:16]
         except Exception as e:
             return 'EXC:%s' % type(e).__name__
     if k == 'targets':
